@@ -86,6 +86,7 @@ def worker(mod_json, wseed, nvalues, cfg_kw, spec_name, flags=drv.DEFAULT_FLAGS,
                 if acc.evaluations % 101 == 1:
                     acc.sample({"type": "%s ::= %s" % (tname, ttext[:300]), "case": val_repr(replay.get("x"), 200)})
             f = None
+            _tt = _time.time()
             if hasattr(spec, "boundary_cases") and mod.name.startswith("Cat"):
                 # catalogue types: a deterministic list of boundary values first (every enumeration item, every
                 # alternative, every OPTIONAL component alone, range end points), then the random draws
@@ -98,6 +99,9 @@ def worker(mod_json, wseed, nvalues, cfg_kw, spec_name, flags=drv.DEFAULT_FLAGS,
                         break
             if f is None:
                 f = pipeline.run_given(strat, body, nvalues, wseed * 1000 + ti)
+            if _time.time() - _tt > 90:
+                acc.notes.append("slow type (%ds for %d values): %s ::= %s" % (_time.time() - _tt, nvalues, tname, ttext[:300]))
+                acc.extra["types_slower_than_90s"] += 1
             if f is not None:
                 if f.key == "flaky":
                     acc.notes.append(f.summary[:500])
